@@ -1,6 +1,292 @@
 import OtelVerif.Common.Line
-import OtelVerif.Model.C08
-/-! driver for C08 (stub) -/
-def main : IO UInt32 := do
-  IO.eprintln "drv_c08: not built yet"
-  return 2
+import OtelVerif.Model.C08Conf
+import OtelVerif.Gen.OtlpSchema
+/-! driver for C08: model `c08-codec` (line protocol of `harness/c08`) -/
+open OtelVerif OtelVerif.Line OtelVerif.Proto OtelVerif.Wire OtelVerif.C08
+
+namespace OtelVerif.Drivers.C08
+
+def S : Schema := Gen.OtlpSchema.schema
+def D : List Val := defaults S
+
+/-! ## text formats -/
+
+def isHexC (c : Char) : Bool := (hexVal c).isSome
+
+partial def parseVal : List Char → Option (Val × List Char)
+  | 'n' :: cs =>
+    let ds := cs.takeWhile Char.isDigit
+    (String.ofList ds).toNat?.map (fun n => (.num n, cs.drop ds.length))
+  | 'b' :: cs =>
+    let hs := cs.takeWhile isHexC
+    (if hs.isEmpty then some [] else unhexBytes (String.ofList hs)).map (fun b => (.bytes b, cs.drop hs.length))
+  | '[' :: ']' :: cs => some (.nil, cs)
+  | '[' :: cs => elems cs
+  | _ => none
+where
+  elems (cs : List Char) : Option (Val × List Char) :=
+    match parseVal cs with
+    | some (v, ',' :: r) => (elems r).map (fun (tl, r') => (.cons v tl, r'))
+    | some (v, ']' :: r) => some (.cons v .nil, r)
+    | _ => none
+
+def readVal (s : String) : Option Val :=
+  match parseVal s.toList with
+  | some (v, []) => some v
+  | _ => none
+
+def hexOf (bs : List Nat) : String := String.ofList (bs.flatMap (fun b => [hexDigit (b / 16 % 16), hexDigit (b % 16)]))
+
+partial def showVal : Val → String
+  | .num n => s!"n{n}"
+  | .bytes b => "b" ++ hexOf b
+  | .nil => "[]"
+  | v@(.cons _ _) => "[" ++ ",".intercalate (go v) ++ "]"
+where
+  go : Val → List String
+    | .cons h t => showVal h :: go t
+    | _ => []
+
+partial def parseJ : List Char → Option (Json × List Char)
+  | 'S' :: cs =>
+    let hs := cs.takeWhile isHexC
+    match cs.drop hs.length with
+    | ';' :: r => (if hs.isEmpty then some [] else unhexBytes (String.ofList hs)).map (fun b => (.str b, r))
+    | _ => none
+  | 'N' :: cs =>
+    let ts := cs.takeWhile (· ≠ ';')
+    match cs.drop ts.length with
+    | ';' :: r => some (.num (ts.map Char.toNat), r)
+    | _ => none
+  | 'T' :: r => some (.tt, r)
+  | 'F' :: r => some (.ff, r)
+  | 'Z' :: r => some (.null, r)
+  | '[' :: cs => arr cs
+  | '{' :: cs => obj cs
+  | _ => none
+where
+  arr (cs : List Char) : Option (Json × List Char) :=
+    match cs with
+    | ']' :: r => some (.anil, r)
+    | _ => match parseJ cs with
+      | some (j, r) => (arr r).map (fun (tl, r') => (.acons j tl, r'))
+      | none => none
+  obj (cs : List Char) : Option (Json × List Char) :=
+    match cs with
+    | '}' :: r => some (.onil, r)
+    | _ =>
+      let hs := cs.takeWhile isHexC
+      match cs.drop hs.length with
+      | ':' :: r =>
+        match (if hs.isEmpty then some [] else unhexBytes (String.ofList hs)), parseJ r with
+        | some k, some (j, r') => (obj r').map (fun (tl, r'') => (.ocons k j tl, r''))
+        | _, _ => none
+      | _ => none
+
+def readJ (s : String) : Option Json :=
+  match parseJ s.toList with
+  | some (j, []) => some j
+  | _ => none
+
+def lexLe : List Nat → List Nat → Bool
+  | [], _ => true
+  | _ :: _, [] => false
+  | a :: as, b :: bs => if a < b then true else if a > b then false else lexLe as bs
+
+/-- canonical print; members of every object sorted by key (stable) -/
+partial def showJ : Json → String
+  | .null => "Z" | .tt => "T" | .ff => "F"
+  | .num t => "N" ++ String.ofList (t.map Char.ofNat) ++ ";"
+  | .str b => "S" ++ hexOf b ++ ";"
+  | .anil => "[]"
+  | j@(.acons _ _) => "[" ++ String.join (elems j) ++ "]"
+  | .onil => "{}"
+  | j@(.ocons _ _ _) =>
+    let ms := (members j).mergeSort (fun a b => lexLe a.1 b.1)
+    "{" ++ String.join (ms.map (fun (k, v) => hexOf k ++ ":" ++ showJ v)) ++ "}"
+where
+  elems : Json → List String
+    | .acons h t => showJ h :: elems t
+    | _ => []
+  members : Json → List (List Nat × Json)
+    | .ocons k v t => (k, v) :: members t
+    | _ => []
+
+/-! ## concrete text codecs -/
+
+def decDigits (n : Nat) : List Nat := (toString n).toList.map Char.toNat
+
+def undecDigits (t : List Nat) : Option Nat :=
+  if t.isEmpty ∨ !(t.all (fun c => 48 ≤ c ∧ c ≤ 57)) then none
+  else some (t.foldl (fun a c => a * 10 + (c - 48)) 0)
+
+def b64chars : Array Nat := ("ABCDEFGHIJKLMNOPQRSTUVWXYZabcdefghijklmnopqrstuvwxyz0123456789+/".toList.map Char.toNat).toArray
+
+def b64enc : List Nat → List Nat
+  | a :: b :: c :: rest =>
+    let n := a * 65536 + b * 256 + c
+    [b64chars[n / 262144 % 64]!, b64chars[n / 4096 % 64]!, b64chars[n / 64 % 64]!, b64chars[n % 64]!] ++ b64enc rest
+  | [a, b] =>
+    let n := a * 65536 + b * 256
+    [b64chars[n / 262144 % 64]!, b64chars[n / 4096 % 64]!, b64chars[n / 64 % 64]!, 61]
+  | [a] =>
+    let n := a * 65536
+    [b64chars[n / 262144 % 64]!, b64chars[n / 4096 % 64]!, 61, 61]
+  | [] => []
+
+def b64val (c : Nat) : Option Nat :=
+  if 65 ≤ c ∧ c ≤ 90 then some (c - 65)
+  else if 97 ≤ c ∧ c ≤ 122 then some (c - 97 + 26)
+  else if 48 ≤ c ∧ c ≤ 57 then some (c - 48 + 52)
+  else if c = 43 then some 62 else if c = 47 then some 63 else none
+
+/-- `base64.StdEncoding.DecodeString` (strict: padding required, no trailing bits check beyond Go's default) -/
+def b64dec : List Nat → Option (List Nat)
+  | [] => some []
+  | [a, b, 61, 61] =>
+    match b64val a, b64val b with
+    | some x, some y => some [(x * 64 + y) / 16 % 256]
+    | _, _ => none
+  | [a, b, c, 61] =>
+    match b64val a, b64val b, b64val c with
+    | some x, some y, some z => let n := (x * 64 + y) * 64 + z; some [n / 1024 % 256, n / 4 % 256]
+    | _, _, _ => none
+  | a :: b :: c :: d :: rest =>
+    match b64val a, b64val b, b64val c, b64val d, b64dec rest with
+    | some x, some y, some z, some w, some tl =>
+      let n := ((x * 64 + y) * 64 + z) * 64 + w
+      some (n / 65536 % 256 :: n / 256 % 256 :: n % 256 :: tl)
+    | _, _, _, _, _ => none
+  | _ => none
+
+def hexEnc (bs : List Nat) : List Nat := (hexOf bs).toList.map Char.toNat
+def hexDec (t : List Nat) : Option (List Nat) :=
+  if t.isEmpty then some [] else unhexBytes (String.ofList (t.map Char.ofNat))
+
+def mkTxt (ft : List (Nat × List Nat)) (pf : List (List Nat × Nat)) : Txt where
+  dec := decDigits
+  undec := undecDigits
+  ffmt := fun n => (ft.lookup n).getD [63]
+  fparse := fun t => pf.lookup t
+  b64 := b64enc
+  unb64 := b64dec
+  hex := hexEnc
+  unhex := hexDec
+
+def splitOnC (s : String) (c : Char) : List String := s.splitOn (String.singleton c)
+
+def parseFt (s : String) : Option (List (Nat × List Nat)) :=
+  if s = "-" ∨ s = "" then some [] else
+  (splitOnC s ',').mapM (fun e =>
+    match splitOnC e ':' with
+    | [b, h] => match b.toNat?, (if h = "" then some [] else unhexBytes h) with
+      | some n, some t => some (n, t)
+      | _, _ => none
+    | _ => none)
+
+def parsePf (s : String) : Option (List (List Nat × Nat)) :=
+  if s = "-" ∨ s = "" then some [] else
+  (splitOnC s ',').mapM (fun e =>
+    match splitOnC e ':' with
+    | [h, b] => match (if h = "" then some [] else unhexBytes h), b.toNat? with
+      | some t, some n => some (t, n)
+      | _, _ => none
+    | _ => none)
+
+/-! ## handler -/
+
+def rootIdx (name : String) : Option Nat :=
+  match S.roots.lookup name with
+  | some i => some i
+  | none => S.msgs.findIdx? (fun m => m.name == name)
+
+def hasSizer (root : String) : Bool := root == "logs" || root == "metrics" || root == "traces" || root == "profiles"
+
+structure St where
+  kind : String := ""
+  root : String := ""
+  /-- value of the last `enc` op and the bytes the IMPLEMENTATION produced for it -/
+  lastVal : Option Val := none
+  implPb : Option (List Nat) := none
+  pendingDec : Option (List Nat) := none
+  fails : List String := []
+
+def onOp (s : St) (toks : List String) : St × List String :=
+  match toks with
+  | ["enc", root, v] =>
+    match rootIdx root, readVal v with
+    | some m, some v =>
+      let b := encode S m v
+      let sz := if hasSizer root then toString (size S m v) else "-"
+      ({ s with lastVal := some v, implPb := none, pendingDec := none }, [s!"obs pb {hexBytes b} {sz}"])
+    | _, _ => (s, ["obs bad-op"])
+  | ["size", name, v] =>
+    match rootIdx name, readVal v with
+    | some m, some v => ({ s with pendingDec := none }, [s!"obs sz {size S m v}"])
+    | _, _ => (s, ["obs bad-op"])
+  | ["dec", root, h] =>
+    match rootIdx root, unhexBytes h with
+    | some m, some bs =>
+      let r := (decode S D m bs).map (fun v => canon S (.slots (S.slots m)) (if migratesPb root then migrate S m v else v))
+      ({ s with pendingDec := some bs }, [match r with | some v => s!"obs ok {showVal v}" | none => "obs err"])
+    | _, _ => (s, ["obs bad-op"])
+  | ["jenc", root, v, ft] =>
+    match rootIdx root, readVal v, parseFt ((ft.splitOn "=").getD 1 "") with
+    | some m, some v, some ft =>
+      ({ s with pendingDec := none }, [s!"obs js {showJ (toJson S (mkTxt ft []) m v)}"])
+    | _, _, _ => (s, ["obs bad-op"])
+  | ["jdec", root, j, pf] =>
+    match rootIdx root, readJ j, parsePf ((pf.splitOn "=").getD 1 "") with
+    | some m, some j, some pf =>
+      let r := (fromJson S (mkTxt [] pf) D m j).map (fun v => canon S (.slots (S.slots m)) (if migratesJson root then migrate S m v else v))
+      ({ s with pendingDec := none }, [match r with | some v => s!"obs ok {showVal v}" | none => "obs err"])
+    | _, _, _ => (s, ["obs bad-op"])
+  | "fuzz" :: _ => ({ s with pendingDec := none }, ["obs done"])
+  | _ => (s, ["obs bad-op"])
+
+/-- search oracle on the IMPLEMENTATION's observations (no model involved):
+ * `size`: the reported size equals the length of the bytes the marshaler produced;
+ * `pbrt`: when the bytes just produced by the marshaler for value `v` are decoded, the result is `v`. -/
+def onObs (s : St) (toks : List String) : St :=
+  match toks with
+  | ["obs", "pb", h, sz] =>
+    match unhexBytes h with
+    | some b =>
+      let s := { s with implPb := some b }
+      if sz ≠ "-" ∧ sz.toNat? ≠ some b.length then
+        { s with fails := s.fails ++ [s!"prop size=FAIL sig=C08/pb/size-mismatch size={sz} len={b.length}"] }
+      else s
+    | none => s
+  | ["obs", "ok", v] =>
+    match s.pendingDec, s.implPb, s.lastVal with
+    | some bs, some pb, some v0 =>
+      if bs == pb ∧ s.kind == "value" then
+        if readVal v == some v0 then s
+        else
+          -- classify: a value only the API builds (selected bytes alternative holding a Go-nil slice) vs anything else
+          let m := (rootIdx s.root).getD 0
+          let apiOnly := conf S true (.slots (S.slots m)) v0 && !conf S false (.slots (S.slots m)) v0
+          let sig := if apiOnly then "C08/pb/roundtrip/oneof-nil-bytes-not-encoded" else "C08/pb/roundtrip/lean-oracle"
+          { s with fails := s.fails ++ [s!"prop pbrt=FAIL sig={sig} decoded={v}"] }
+      else s
+    | _, _, _ => s
+  | ["obs", "err"] =>
+    match s.pendingDec, s.implPb with
+    | some bs, some pb =>
+      if bs == pb ∧ s.kind == "value" then
+        { s with fails := s.fails ++ ["prop pbrt=FAIL sig=C08/pb/roundtrip/own-encoding-rejected"] }
+      else s
+    | _, _ => s
+  | _ => s
+
+def handler : Handler St where
+  init := {}
+  onCase := fun s toks => { s with kind := (kv toks "kind").getD "", root := (kv toks "root").getD "" }
+  onOp := onOp
+  onObs := onObs
+  onEnd := fun s => if s.fails.isEmpty then ["prop size=ok", "prop pbrt=ok"] else s.fails
+
+end OtelVerif.Drivers.C08
+
+def main : IO UInt32 :=
+  runMulti [("c08-codec", run OtelVerif.Drivers.C08.handler)]
